@@ -292,6 +292,56 @@ theorem tofewer_truthful {α : Type} (key : α → Nat) (divs : List Nat) (parts
 example : toFewerDivs [0, 3, 5, 9, 12] [0, 2, 4] = some [0, 5, 12] := by decide
 
 
+/-- FULL STATEMENT for `.loc[a:b]` (`LocSlice`), `a ≤ b` or an open end -/
+def LocSliceFullStatement : Prop :=
+  ∀ (α : Type) (key : α → Nat) (divs : List Nat) (parts : List (List α)) (a b : Option Nat) (pl : LocPlan)
+    (ps' : List (List α)),
+    Truthful key divs parts → (∀ x y, a = some x → b = some y → x ≤ y) →
+    locSlice divs a b = some pl → locSliceParts key parts pl a b = some ps' → Truthful key pl.divisions ps'
+
+/-- **loc_slice_truthful — `_partial`: the selection falls into one partition** (`start = stop`; this is also
+    the shape of `.loc[k]` / `LocElement`). The reported divisions are the slice bounds themselves and the
+    single output partition holds exactly the rows with `a ≤ key ≤ b`. (The multi-partition case —
+    trimmed first/last partition, untouched middle ones — is validated by the tie; its statement is
+    `LocSliceFullStatement`.) -/
+theorem loc_slice_truthful_partial {α : Type} (key : α → Nat) (divs : List Nat) (parts : List (List α))
+    (x y : Nat) (hxy : x ≤ y) (pl : LocPlan) (ps' : List (List α))
+    (hpl : locSlice divs (some x) (some y) = some pl) (hone : pl.stop = pl.start)
+    (hps : locSliceParts key parts pl (some x) (some y) = some ps') :
+    Truthful key pl.divisions ps' := by
+  have hdivs : pl.divisions = [x, y] := by
+    unfold locSlice at hpl
+    split at hpl
+    · cases hpl
+    · split at hpl
+      · unfold locSliceCore at hpl
+        simp only at hpl
+        split at hpl
+        · cases hpl; rfl
+        · rename_i hne
+          split at hpl
+          · cases hpl; exact absurd hone hne
+          · cases hpl
+      · cases hpl
+  unfold locSliceParts at hps
+  simp only [hone, if_true, Option.bind_eq_bind, Option.bind_eq_some_iff, Option.pure_def, Option.some.injEq] at hps
+  obtain ⟨p, _, rfl⟩ := hps
+  rw [hdivs]
+  refine ⟨rfl, by simp [hxy], ?_⟩
+  intro i q lo hi hq hlo hhi r hr
+  cases i with
+  | zero =>
+    simp at hq hlo hhi
+    subst hq hlo hhi
+    unfold locRows at hr
+    simp only [List.mem_filter, Bool.and_eq_true, decide_eq_true_eq] at hr
+    exact ⟨hr.2.1, Or.inr ⟨rfl, hr.2.2⟩⟩
+  | succ i => simp at hq
+
+example : locSlice [0, 5, 18, 25, 28] (some 17) (some 31) = some ⟨1, 3, [17, 18, 25, 28]⟩ := by decide
+example : locSlice [0, 5, 18, 25, 28] (some 6) (some 9) = some ⟨1, 1, [6, 9]⟩ := by decide
+
+
 /-! non-vacuity -/
 example : sdl ([(0 : Nat), 0, 1, 1, 1, 1, 2, 2, 4, 5, 5, 5, 5].map id) (.npartitions 4) =
     some ([0, 1, 2, 5, 5], [0, 2, 6, 9, 13]) := by decide
